@@ -144,7 +144,7 @@ def main():
                     wa.apply(o)
             except Exception:     # noqa
                 continue
-            if G.declared_cycle(wa.m):
+            if wa.k1_seen or G.declared_cycle(wa.m):
                 continue           # known finding K1 (C01)
             hist = "; ".join(G.opstr(o) for o in ops)
             key = f"dump-load [{hist}]"
